@@ -155,6 +155,30 @@ Proof.
     (exists g0; split; [now apply nth_app_old|apply g_le_p_refl]).
 Qed.
 
+Lemma mint_if_grants b s gi cls mx mints e s' o : mint_if b s gi cls mx mints e = Ok (s', o) -> grants s' = grants s.
+Proof.
+  intros H. apply mint_if_ok in H as [(_&->&_)|(id&_&_&Hm)]; [reflexivity|]. now apply mint_ok in Hm as (_&_&Hm&_).
+Qed.
+(* an implicit / hybrid authorization only appends a grant *)
+Lemma authorize_rt_grants c s u cl sc wc wt wi :
+  exists g, grants (fst (do_authorize_rt c s u cl sc wc wt wi)) = grants s ++ [g] /\
+            g_client g = cl /\ g_areq_scope g = sc /\ g_scope g = filter_scopes c cl sc.
+Proof.
+  exists (mkGrant u cl false (now s + c_grant_exp c) (filter_scopes c cl sc) sc (redirect_of cl) (now s + c_authn_valid c) false).
+  split; [|cbn; auto].
+  replace (filter_scopes c cl sc) with (match sc with [] => [] | _ => filter_scopes c cl sc end) by (destruct sc; reflexivity).
+  unfold do_authorize_rt. cbv zeta.
+  repeat match goal with
+         | |- context [mint_if ?b ?s0 ?gi ?cls ?mx ?mi ?e] =>
+             let H := fresh "Hm" in destruct (mint_if b s0 gi cls mx mi e) as [[? ?]| |] eqn:H; [apply mint_if_grants in H|..]
+         end; cbn [fst]; repeat match goal with H : grants _ = _ |- _ => rewrite H; clear H end; reflexivity.
+Qed.
+Lemma authorize_rt_gext P c s u cl sc wc wt wi : gext_p P s (fst (do_authorize_rt c s u cl sc wc wt wi)).
+Proof.
+  destruct (authorize_rt_grants c s u cl sc wc wt wi) as (g&Hg&_). intros gi0 g0 H. rewrite Hg.
+  exists g0. split; [now apply nth_app_old|apply g_le_p_refl].
+Qed.
+
 Lemma step_gext_p c s o : gext_p (grants_good c s) s (fst (step c s o)).
 Proof.
   destruct o; cbn [step].
@@ -199,6 +223,7 @@ Proof.
     match goal with |- context [mint ?a ?b ?c0 ?d ?e ?f ?g ?h] => destruct (mint a b c0 d e f g h) as [[s2 id]| |] eqn:Hm end; cbn [fst];
       try exact Hk.
     apply mint_ok in Hm as (_&_&Hm&_). intros k g0 H. rewrite Hm. now apply Hk.
+  - (* AuthorizeRT *) apply authorize_rt_gext.
 Qed.
 
 (* for every operation, unconditionally *)
